@@ -196,6 +196,13 @@ def k_c04(ctx):
     what = ("proceeds", "totals", "years", "dgain")
     run_k(ctx, K.corpus_ledgers(), what, oracle=oracle_c04)
     cases = gen_cases(ctx, ctx.n(4000, 60000), ["mixed", "plain", "events", "noevents"])
+    # histories that skip whole tax years: everything after a random point moved two or three years on
+    for cid in list(cases)[::7]:
+        ls = sorted(cases[cid], key=lambda l: l.date)
+        if len(ls) < 3: continue
+        k = ctx.rng.randint(1, len(ls) - 1); gap = datetime.timedelta(days=ctx.rng.choice([731, 1096, 1461]))
+        moved = [l if i < k else l.copy(date=l.date + gap) for i, l in enumerate(ls)]
+        if max(l.date for l in moved).year <= 2025: cases[cid + ":gap"] = moved; ctx.count("gap_year_histories", True)
     run_k(ctx, cases, what, oracle=oracle_c04)
     # foreign currency, each amount in its own: the same arithmetic on the amounts converted at the HMRC rate of their own month
     # (rates read from the HMRC files themselves, not from the code)
